@@ -63,6 +63,22 @@ def _scn(draw):
     return scn
 
 
+def enumerated(tier):
+    """boundary worlds: a completely empty root, and a root whose nested history folder is empty, sealed with and without -n"""
+    for probes in ([["create_n", 0], ["verify", 1], ["create", 2], ["create_n", 3], ["info", 4]], [["create", 0], ["create_n", 1], ["flatten", 0], ["diff", 2]]):
+        yield {"root": "empty root", "tree": {}, "steps": [], "spell": "abs", "damage": None, "probes": probes}
+        yield {"root": "outer", "tree": {"empty kid": {}, "f.mov": "f"}, "spell": "abs", "damage": None, "probes": probes,
+               "steps": [{"op": "create", "root": "empty kid", "formats": ["md5"], "flags": []}]}
+        yield {"root": "outer n", "tree": {"empty kid": {}, "f.mov": "f"}, "spell": "abs", "damage": None, "probes": probes,
+               "steps": [{"op": "create", "root": "empty kid", "formats": ["md5"], "flags": ["-n"]}, {"op": "create", "root": "", "formats": ["md5"], "flags": ["-n"]}]}
+
+
+    # a history with more than ten generations, then several creates in a row (within one clock second)
+    yield {"root": "long", "tree": {"a.mov": "a", "kid": {"b.mov": "b"}}, "spell": "abs", "damage": None,
+           "steps": [{"op": "create", "root": "kid", "formats": ["md5"], "flags": []}] + [{"op": "create", "root": "", "formats": ["md5"], "flags": []} for _ in range(11)],
+           "probes": [["create", 0], ["create_n", 1], ["create", 2], ["create_sf", 3], ["create", 4], ["verify", 5]]}
+
+
 def strategy(tier):
     return _scn()
 
